@@ -54,9 +54,13 @@ class CallMixin:
 
     # ==================================================================================== attribute read
     def get_attr(self, obj, name: str, node=None):
+        obj = self.resolve_ite(obj)
         so = self.static_of(obj)
-        if so is not None and not isinstance(so, tuple):
+        if so is not None:
             return self.static_get_attr(obj, so, name, node)
+        co = self.classobj_bound(obj)
+        if co is not None:
+            return self.static_get_attr(obj, co, name, node)
         k = self.kind_of(obj, force=True)
         if k == 'str':
             return self.static_val(BoundBuiltin(f'str.{name}', obj))
@@ -160,6 +164,9 @@ class CallMixin:
             return self.class_attr_val(lk[2], name, lk[1])
         # symbolic class: uninterpreted class attribute with ground facts for the known classes
         f = z3.Function(f'classattr_{name}', smt.I, Val)
+        for (oq, an), spec in getattr(self, 'class_attr_types', {}).items():
+            if an == name and c.is_subclass(self.resolve_class(oq)):
+                self.assume(self.type_formula(f(smt.cls_of(Val.r(obj))), spec))
         for k, lk in have:
             self.use_class(k)
             self._add_pc(f(z3.IntVal(k.cid)) == self.class_attr_val(lk[2], name, lk[1]))
@@ -332,7 +339,7 @@ class CallMixin:
         if k != 'ref':
             self.raise_new('AttributeError', smt.mk_str(f"cannot set attribute '{name}'"))
         so = self.static_of(obj)
-        if so is not None and not isinstance(so, tuple):
+        if so is not None:
             if isinstance(so, Closure):
                 self.set_attr_raw(obj, name, val)
                 return
@@ -437,7 +444,7 @@ class CallMixin:
         if K.builtin and K.name == 'object':
             return z3.BoolVal(True)
         so = self.static_of(v)
-        if so is not None and not isinstance(so, tuple):
+        if so is not None:
             if isinstance(so, ClassInfo):
                 return z3.BoolVal(K.name == 'type')
             return z3.BoolVal(K.name in ('function',) and isinstance(so, (Closure, BoundMethod)))
@@ -468,9 +475,17 @@ class CallMixin:
         return self.ev(e.args[1], fr)
 
     # ------------------------------------------------------------------ generic call
+    def resolve_ite(self, v):
+        """split a merged value If(c, a, b) into the side taken on this path"""
+        v = smt.simp(v)
+        while z3.is_app(v) and v.decl().kind() == z3.Z3_OP_ITE and v.sort() == Val:
+            v = smt.simp(v.arg(1) if self.branch(v.arg(0)) else v.arg(2))
+        return v
+
     def call(self, fv, args: List[Any], kwargs: Dict[str, Any], star=None, dstar=None, node=None):
+        fv = self.resolve_ite(fv)
         so = self.static_of(fv)
-        if so is not None and not isinstance(so, tuple):
+        if so is not None:
             if isinstance(so, Closure):
                 return self.call_function(so, args, kwargs, star, dstar, node)
             if isinstance(so, BoundMethod):
